@@ -598,9 +598,7 @@ class T10(Tr):
         return (f"{doc}def {sp.name} {binders} : {sp.ret} :=\n"
                 f"  let sel := {sel} lanelet_network keep\n"
                 f"  let new_lanelet_network := lanelet_network.inters.foldl (fun new_lanelet_network (old_intersection : CR.Refs.Intersection) =>\n"
-                f"      match {inter} sel.1 old_intersection with\n"
-                f"      | none => new_lanelet_network\n"
-                f"      | some new_intersection => CR.PyR.addInter new_lanelet_network new_intersection) CR.PyR.emptyNet\n"
+                f"      CR.PyR.addInterO new_lanelet_network ({inter} sel.1 old_intersection)) CR.PyR.emptyNet\n"
                 f"  {tail} lanelet_network new_lanelet_network sel.1 sel.2.1 sel.2.2 cleanup_ids\n")
 
     def final(self):
